@@ -730,3 +730,158 @@ func heldWithCallers(w *World, in ssa.Instruction, isMutexVal func(ssa.Value) bo
 	}
 	return n > 0
 }
+
+// ruleFlagBrackets: a function that raises a flag field (stores a non-zero constant, directly or through
+// sync/atomic) and lowers it again (stores zero) brackets a region, like Lock/Unlock. Every path from the
+// raise to a return must pass a lowering store — an early return inside the bracket leaves the flag up for
+// good, and whoever tests it (the retransmission poller) stays switched off.
+func ruleFlagBrackets(w *World, r *Report, rule string, inScope func(pkgPath string) bool, consequence string) {
+	type ev struct {
+		fld *types.Var
+		up  bool
+	}
+	classify := func(in ssa.Instruction) (ev, bool) {
+		switch x := in.(type) {
+		case *ssa.Store:
+			fa := asFieldAddr(x.Addr)
+			if fa == nil {
+				return ev{}, false
+			}
+			fv := fieldVarOf(fa)
+			if fv == nil {
+				return ev{}, false
+			}
+			if b, ok := constBool(x.Val); ok {
+				return ev{fv, b}, true
+			}
+			if bt, ok := fv.Type().Underlying().(*types.Basic); ok && bt.Info()&types.IsInteger != 0 {
+				if v, ok := constIntVal(x.Val); ok && (v == 0 || v == 1) {
+					return ev{fv, v != 0}, true
+				}
+			}
+		case *ssa.Call:
+			f := sCallee(x)
+			if f != nil && f.Pkg() != nil && f.Pkg().Path() == "sync/atomic" && strings.HasPrefix(f.Name(), "Store") && len(x.Call.Args) == 2 {
+				fa := asFieldAddr(x.Call.Args[0])
+				if fa == nil {
+					return ev{}, false
+				}
+				if v, ok := constIntVal(x.Call.Args[1]); ok {
+					return ev{fieldVarOf(fa), v != 0}, true
+				}
+			}
+		}
+		return ev{}, false
+	}
+	n := 0
+	for fn := range allModuleFuncs(w, w.SSA()) {
+		f0 := fn
+		for f0.Parent() != nil {
+			f0 = f0.Parent()
+		}
+		if f0.Pkg == nil || !inScope(f0.Pkg.Pkg.Path()) {
+			continue
+		}
+		ups := map[*types.Var][]ssa.Instruction{}
+		downs := map[*types.Var]bool{}
+		allInstrs(fn, func(in ssa.Instruction) {
+			if e, ok := classify(in); ok && e.fld != nil {
+				if e.up {
+					ups[e.fld] = append(ups[e.fld], in)
+				} else {
+					downs[e.fld] = true
+				}
+			}
+		})
+		for fld, raises := range ups {
+			if !downs[fld] {
+				continue // not a bracket in this function (e.g. closed = true)
+			}
+			// a bracket only if a lowering store can follow the raise (a setting chosen per branch —
+			// `if ok { f = true; return }; f = false` — is not one)
+			var bracketing []ssa.Instruction
+			for _, up := range raises {
+				if canReach(fn, up, nil, func(in ssa.Instruction) bool { c, ok := classify(in); return ok && c.fld == fld && !c.up }) != nil {
+					bracketing = append(bracketing, up)
+				}
+			}
+			raises = bracketing
+			if len(raises) == 0 {
+				continue
+			}
+			// the function must report through an error result: the bracket is "lowered on every successful
+			// return"; the slip looked for is an error return that forgets the lowering
+			res := fn.Signature.Results()
+			if res.Len() == 0 || !types.Identical(res.At(res.Len()-1).Type(), types.Universe.Lookup("error").Type()) {
+				continue
+			}
+			key := "flag:" + fieldOwner(fld) + "." + fld.Name() + "@" + ssaFuncKey(fn)
+			bad := ""
+			succAll, nsucc := true, 0
+			var leaks []string
+			for _, up := range raises {
+				okp := enumPaths(fn, up, func(in ssa.Instruction) bool {
+					e, ok := classify(in)
+					return ok && e.fld == fld
+				}, nil, func(e pathExit) {
+					ret, isRet := e.Last.(*ssa.Return)
+					if !isRet {
+						return
+					}
+					lowered := false
+					for _, x := range e.State.Events {
+						if c, _ := classify(x); c.fld == fld {
+							lowered = !c.up
+						}
+					}
+					isSucc := isConstNil(e.State.Resolve(ret.Results[len(ret.Results)-1]))
+					if isSucc {
+						nsucc++
+						if !lowered {
+							succAll = false
+						}
+					} else if !lowered {
+						leaks = append(leaks, fmt.Sprintf("%s: an error return leaves %s raised (raised at %s, lowered on every successful return): %s", w.Pos(ret.Pos()), fld.Name(), w.Pos(up.Pos()), consequence))
+					}
+				})
+				if !okp {
+					bad = "path budget exceeded"
+				}
+			}
+			if !succAll || nsucc == 0 {
+				continue // the successful outcome keeps the flag: a setting, not a bracket
+			}
+			n++
+			if len(leaks) > 0 && bad == "" {
+				sort.Strings(leaks)
+				bad = leaks[0]
+			}
+			// a deferred lowering covers every return
+			if bad != "" {
+				allInstrs(fn, func(in ssa.Instruction) {
+					if d, ok := in.(*ssa.Defer); ok {
+						if mc, ok := d.Call.Value.(*ssa.MakeClosure); ok {
+							allInstrs(mc.Fn.(*ssa.Function), func(x ssa.Instruction) {
+								// the closure sees the field through its own FieldAddr on a captured receiver
+								if c, ok := classify(x); ok && c.fld == fld && !c.up {
+									bad = ""
+								}
+							})
+						}
+						if f := sCallee(d); f != nil && f.Pkg() != nil && f.Pkg().Path() == "sync/atomic" && strings.HasPrefix(f.Name(), "Store") {
+							if fa := asFieldAddr(d.Call.Args[0]); fa != nil && fieldVarOf(fa) == fld {
+								if v, ok := constIntVal(d.Call.Args[1]); ok && v == 0 {
+									bad = ""
+								}
+							}
+						}
+					}
+				})
+			}
+			r.Check(bad == "", rule, key, w.Pos(fn.Pos()), "every path from the raise to a return lowers the flag again", bad)
+		}
+	}
+	if n == 0 {
+		r.Hold(rule, "flag:*", "-", "no function raises and lowers a flag field (no bracket to check)")
+	}
+}
